@@ -39,6 +39,8 @@ def cases(tier, seed):
         yield {"fam": "rand", "i": i}
     for i in range(12 if tier == "quick" else 96):
         yield {"fam": "tails", "i": i}
+    for i in range(12 if tier == "quick" else 96):
+        yield {"fam": "manyfrag", "i": i}
 
 
 def setup(ctx):
@@ -83,6 +85,52 @@ def run(case, ctx):
     from panoptica.utils.processing_pair import UnmatchedInstancePair
 
     fam, i = case["fam"], case["i"]
+    if fam == "manyfrag":
+        # one reference covered by 20..40 prediction fragments whose label values are widely spread: the list of merged
+        # labels becomes long (membership tests switch algorithm with the length and spread of the list)
+        r = gen.rng(ctx.seed, "c14many", i)
+        k = int([20, 24, 32, 40, 22, 28][i % 6])
+        w = 2
+        n = k * (w + 1) + 30
+        shape = (n,) if i % 2 == 0 else (2, n)
+        dtype = [np.uint32, np.uint16, np.uint64][i % 3]
+        refa = np.zeros(shape, dtype=dtype)
+        pred = np.zeros(shape, dtype=dtype)
+        labels = [int(x) for x in r.choice(np.arange(1, 60000 if dtype == np.uint16 else 2_000_000), size=k + 2, replace=False)]
+        ax = len(shape) - 1
+        sl = [slice(None)] * len(shape)
+        sl[ax] = slice(5, 5 + k * (w + 1))
+        refa[tuple(sl)] = 7
+        for j in range(k):
+            sl[ax] = slice(5 + j * (w + 1), 5 + j * (w + 1) + w)
+            pred[tuple(sl)] = labels[j]
+        # two fragments that reach far outside the reference (merging them lowers the score)
+        sl[ax] = slice(5 + k * (w + 1) - 1, n - 2)
+        pred[tuple(sl)] = labels[k]
+        if i % 2 == 1:
+            # a larger first fragment, many one-voxel fragments inside the reference (each improves the match) and a
+            # last fragment with one voxel inside and several outside (lowers it: must stay unmatched)
+            rows = 10 + (i // 2) % 3
+            refa = np.zeros((rows, 10), dtype=dtype)
+            pred = np.zeros_like(refa)
+            refa[0 : rows - 1, :] = 7
+            step = int([50, 1000, 37][(i // 2) % 3])
+            pred[0:3, :] = 1
+            kk = int([18, 22, 30][(i // 4) % 3])
+            for q in range(kk):
+                pred[3 + q // 10, q % 10] = step * (q + 1)
+            pred[rows - 2, 0] = step * (kk + 1)
+            pred[rows - 1, 0:5] = step * (kk + 1)
+        ctx.count("f:C14.many_fragments_spread_labels")
+        for metric, thr in (("IOU", 0.01), ("DSC", 0.02), ("IOU", 0.3)):
+            ctx.count("evaluations")
+            try:
+                with pan.quiet():
+                    pan.make_matcher({"kind": "merge", "metric": metric, "thr": thr}).match_instances(UnmatchedInstancePair(pred.copy(), refa.copy()))
+            except Exception:  # noqa: BLE001  (recorded by the monitor)
+                pass
+        ctx.nontrivial("manyfrag", i)
+        return
     if fam == "tails":
         # fragments with far-away tails, in small volumes and in volumes beyond 2^18 / 2^20 voxels: the union has to be
         # scored with every voxel of every merged fragment, wherever it lies
